@@ -44,8 +44,9 @@ class Obj:
 
 
 class SpaceSpec:
-    def __init__(self, path, bases=(), params=None):
+    def __init__(self, path, bases=(), params=None, late_bases=False):
         self.path = path                    # 'A', 'A.Ch'
+        self.late_bases = late_bases        # bases attached by add_bases() after every cells / reference exists
         self.bases = list(bases)            # paths
         self.params = params                # None or tuple of parameter names (ItemSpace parent)
         self.refs = OrderedDict()           # name -> python value | Obj
@@ -68,14 +69,17 @@ class Spec:
         self.spaces = OrderedDict()         # path -> SpaceSpec
         self.late_refs = []                 # (path, name, value) created after everything else (collisions)
         self.post = []                      # raw statements run last (not understood by PureModel)
+        self.overrides = set()              # (path, cells): defined by assigning .formula of the derived cells
 
-    def space(self, path, bases=(), params=None):
-        s = SpaceSpec(path, bases, params)
+    def space(self, path, bases=(), params=None, late_bases=False):
+        s = SpaceSpec(path, bases, params, late_bases)
         self.spaces[path] = s
         return s
 
-    def cell(self, path, name, src, cached=True):
+    def cell(self, path, name, src, cached=True, override=False):
         self.spaces[path].cells[name] = [src, cached]
+        if override:
+            self.overrides.add((path, name))
 
     def ref(self, path, name, value):
         if path == "":
@@ -88,9 +92,9 @@ class Spec:
 
     def key(self):
         return (tuple(self.refs.items()),
-                tuple((p, tuple(s.bases), s.params, tuple(s.refs.items()),
+                tuple((p, tuple(s.bases), s.late_bases, s.params, tuple(s.refs.items()),
                        tuple((n, c[0], c[1]) for n, c in s.cells.items())) for p, s in self.spaces.items()),
-                tuple(self.late_refs), tuple(self.post))
+                tuple(self.late_refs), tuple(self.post), tuple(sorted(self.overrides)))
 
     def children(self, path):
         pre = path + "." if path else ""
@@ -105,7 +109,7 @@ class Spec:
         for p, s in self.spaces.items():
             par = "m." + s.parent if s.parent else "m"
             extra = ""
-            if s.bases:
+            if s.bases and not s.late_bases:
                 extra += ", bases=[%s]" % ", ".join("m." + b for b in s.bases)
             if s.params:
                 extra += ", formula=%r" % ("lambda %s: None" % ", ".join(s.params))
@@ -116,7 +120,12 @@ class Spec:
                     L.append("m.%s.%s = %r" % (p, n, v))
         for p, s in self.spaces.items():
             for n, (src, cached) in s.cells.items():
-                L.append(newcells_line(p, n, src, cached))
+                if (p, n) not in self.overrides:
+                    L.append(newcells_line(p, n, src, cached))
+        for p, s in self.spaces.items():
+            for n, (src, cached) in s.cells.items():
+                if (p, n) in self.overrides:
+                    L.append("m.%s.%s.formula = %r" % (p, n, src))
         for n, v in self.refs.items():
             if isinstance(v, Obj):
                 L.append("m.%s = %r" % (n, v))
@@ -124,6 +133,9 @@ class Spec:
             for n, v in s.refs.items():
                 if isinstance(v, Obj):
                     L.append("m.%s.%s = %r" % (p, n, v))
+        for p, s in self.spaces.items():
+            if s.bases and s.late_bases:
+                L.append("m.%s.add_bases(%s)" % (p, ", ".join("m." + b for b in s.bases)))
         for p, n, v in self.late_refs:
             L.append("m.%s%s = %r" % (p + "." if p else "", n, v))
         L.extend(self.post)
@@ -397,8 +409,9 @@ class PModelNS:
 class PureModel:
     """Uncached evaluation of the current definitions.  Edits change the definitions only."""
 
-    def __init__(self, spec, tick=None):
-        self.spec = spec.copy()
+    def __init__(self, spec, copy=True):
+        self.spec = spec.copy() if copy else spec       # copy=False: read-only use (no edits)
+        self.failed = set()                 # (path.cells, repr(key)) of formula runs that ended with an exception
         self.inputs = {}                    # (space path, cells name) -> {key: value}
         self.ticks = []
         self.calls = []                     # (caller element | None, callee element) in call order
@@ -481,16 +494,6 @@ class PureModel:
         ns = {"__builtins__": builtins}
         for ch in self.spec.children(defpath):
             ns[ch.rsplit(".", 1)[-1]] = self.space(ch)
-        if ps._base is None:
-            # child spaces derived from the bases (definitions of the base's child, parent = this space)
-            for b in self._bases_of(defpath):
-                for ch in self.spec.children(b):
-                    n = ch.rsplit(".", 1)[-1]
-                    if n not in ns:
-                        key = defpath + "." + n
-                        if key not in self._spaces:
-                            self._spaces[key] = PSpace(self, key, base=ch, parent_path=defpath)
-                        ns[n] = self._spaces[key]
         for n, v in self.spec.refs.items():
             ns[n] = self._refval(v)
         for p, n, v in self.spec.late_refs:
@@ -530,8 +533,14 @@ class PureModel:
         self._stack.append(elem)
         try:
             return pc.func(*key)
+        except BaseException:
+            self.failed.add((pc.space._path + "." + pc.name, repr(key)))
+            raise
         finally:
             self._stack.pop()
+
+    def reset_logs(self):
+        self.ticks, self.calls, self.attr_reads = [], [], []
 
     def query(self, op):
         _, path, cname, args, kwargs, form = op
